@@ -80,6 +80,8 @@ class RZILTransformer(Transformer):
         # Classes of Pures which should not be initialized in the C code.
         self.inlined_pure_classes = (Number, Sizeof, Cast, Bool)
         self.imm_set_effect_list = list()
+        # Operands of discarded conditional arms. Removed at the end if nothing uses them.
+        self.dead_arm_operands: list = list()
 
         self.arch = arch
         self.sub_routines: dict[str:SubRoutine] = (
@@ -116,6 +118,7 @@ class RZILTransformer(Transformer):
 
     def reset(self):
         self.ext.reset_flags()
+        self.dead_arm_operands.clear()
         self.il_ops_holder.hybrid_effect_dict.clear()
         self.imm_set_effect_list.clear()
         self.il_ops_holder.clear()
@@ -171,6 +174,13 @@ class RZILTransformer(Transformer):
         # We are at the top. Generate code.
 
         holder = self.il_ops_holder
+        for dead in self.dead_arm_operands:
+            # Operands of discarded arms, which nothing else uses, need no declaration.
+            if holder.read_ops.get(dead.get_name()) is dead and not holder.is_referenced(
+                dead
+            ):
+                holder.rm_op_by_name(dead.get_name())
+        self.dead_arm_operands.clear()
         if holder.is_empty():
             return f"return NOP();"
 
@@ -1292,10 +1302,12 @@ class RZILTransformer(Transformer):
         shared = isinstance(dead, (LocalVar, GlobalVar)) and not (
             dead.value_type.group & VTGroup.HYBRID_LVAR
         )
-        if not shared or (
-            dead is not live and not self.il_ops_holder.is_referenced(dead)
-        ):
+        if not shared:
             self.il_ops_holder.rm_op_by_name(dead.get_name())
+        elif dead is not live:
+            # An op which is not built yet can need it as well ("RtV + (0 ? RtV : RuV)").
+            # This is known when all ops exist.
+            self.dead_arm_operands.append(dead)
         return live
 
     def cast_operands(self, immutable_a: bool, **ops) -> tuple[Pure, Pure]:
